@@ -2,6 +2,7 @@
   C09  Logout is final.
 -/
 import AuthProofs.Ladder
+import AuthProofs.CodeEquivOidc
 import AuthProofs.StoreSeq
 import AuthModel.Oidc.Sched
 import AuthProofs.RedisCmd
@@ -199,6 +200,22 @@ theorem discovery_refuses_logout_without_uri (cache : Cache) (c : DCfg) (d : Wel
   rcases hdoc with hc | ⟨hc, rfl⟩ <;> simp [hu, hc, patch, hl, he]
 end FaultsAndDiscovery
 
+/-- `matchesLogoutPath` and `matchesCallbackPath` AS TRANSLATED FROM THE GO SOURCE on this run are the model's path
+    matchers: the logout branch is entered exactly when logout is configured and the PATH COMPONENT of the request
+    target equals the configured logout path (query and fragment play no part); the callback matcher never
+    dereferences the parsed callback URI when it parsed (which configuration validation guarantees). -/
+theorem code_path_matchers (env : Go.Env) (c : Pb.OIDCConfig) (h : Pb.AttributeContext_HttpRequest) (cfg : Cfg) (req : Req)
+    (hl : cfg.logout = if c.GetLogout.isNil then none else some (c.GetLogout.Path, c.GetLogout.RedirectUri))
+    (hp : req.path = h.GetPath) (hh : req.host = h.GetHost)
+    (u : Go.URL) (e : Bool) (hu : env.urlParseOracle c.GetCallbackUri = (u, e)) (hun : u.isNil = false)
+    (h1 : cfg.cbScheme = u.Scheme) (h2 : cfg.cbHost = u.hostname) (h3 : cfg.cbPort = u.port) (h4 : cfg.cbPath = u.Path) :
+    Code.matchesLogoutPath env c h = .ok (matchesLogout cfg req) ∧
+    Code.matchesCallbackPath env c h = .ok (matchesCallback cfg req) :=
+  ⟨code_matchesLogout env c h cfg req hl hp, code_matchesCallback env c h cfg req u e hu hun h1 h2 h3 h4 hp hh⟩
+
+example : Code.matchesLogoutPath {} { Logout := { isNil := false, Path := B "/logout" } } { Path := B "/logout?x=1#f" } = .ok true := by decide
+example : Code.matchesLogoutPath {} { Logout := { isNil := false, Path := B "/logout" } } { Path := B "/logout/x" } = .ok false := by decide
+
 end AuthProps.C09
 
 #print axioms AuthProps.C09.logout_answer
@@ -215,3 +232,4 @@ end AuthProps.C09
 #print axioms AuthProps.C09.logout_uri_configured_or_discovered
 #print axioms AuthProps.C09.discovery_refuses_logout_without_uri
 #print axioms AuthProps.C09.finality_characterisation
+#print axioms AuthProps.C09.code_path_matchers
